@@ -125,7 +125,7 @@ def main(argv):
     site_alarm = classes is not None and any(c[0] == 'Unclassified' for c in classes)
     extended = ''
     if h_ok and not replay and (site_alarm or not proofs_ok) and not any(l.startswith('ORACLE-FAIL') for l in lines):
-        n2, per2, budget2 = (16, 8, 150) if tier == 'quick' else (64, 24, 600)
+        n2, per2, budget2 = (16, 8, 100) if tier == 'quick' else (64, 24, 600)
         xl = run_harness(v, ['run', n2, per2, budget2], seed + 7919, budget2 + 600, work=os.path.join(WORK, 'C19x'))
         extended = ' | extended search: ' + ' '.join(l.split('\t', 1)[1] for l in xl if l.startswith('STATS'))[:600]
         lines += [l for l in xl if not l.startswith('STATS')]
